@@ -134,7 +134,9 @@ fn env_run(prop: &'static str, tier: &str, shard: Option<&str>) -> Report {
     let cfg = envcheck::EnvCfg {
         prop,
         horizon,
-        warm_horizon: if thorough { horizon } else { horizon - 1 },
+        // (The tag placements of C12 and the arities of C19 multiply the
+        // subjects: their warm enumeration stays one step shallower.)
+        warm_horizon: if thorough && !matches!(prop, "C12" | "C19") { horizon } else { horizon - 1 },
     };
     let mut subs = subjects::all_subjects(prop, thorough);
     {
